@@ -6,6 +6,8 @@ package rdb
 //vf:job C01 quick VF_C01_Meta sk=0..7
 //vf:job C01 quick VF_C01_FooterRejects pos=0..7
 //vf:job C11 quick VF_C01_FooterRejects pos=0..7
+//vf:job C11 quick VF_C01_ShortReads mode=0..2
+//vf:job C01 quick VF_C01_ShortReads mode=0..2
 //vf:job C01 quick VF_C01_HeaderVersion
 //vf:job C01 thorough VF_C01_Load sk=0..27 attr=4..5 big=1
 //vf:assume C01 the reference writer in the harness follows rdb.c; the DUMP checksum on the oracle side is computed with the tool's own digest over the same byte terms (that this digest is the Redis CRC-64 is C11)
@@ -13,6 +15,7 @@ package rdb
 
 import (
 	"bytes"
+	"io"
 )
 
 // vfForm picks a length form legal for small values: 0 (6 bit), 1 (14 bit), 2 (32 bit).
@@ -384,4 +387,65 @@ func VF_C01_HeaderVersion() {
 	vfAssert(vfImplies(vfAnd(val >= 1, val <= 9), err == nil), "supported version rejected")
 	vfAssert(vfImplies(vfOr(val < 1, val > 9), err != nil), "unsupported version accepted")
 	vfAssertTwin(err != nil, "twin")
+}
+
+// vfShort returns at most `max` bytes per Read (1 = one byte at a time, 0 = half of what is asked)
+type vfShort struct {
+	data []byte
+	pos  int
+	max  int
+}
+
+func (r *vfShort) Read(p []byte) (int, error) {
+	if r.pos >= len(r.data) {
+		return 0, io.EOF
+	}
+	n := len(p)
+	if r.max == 0 {
+		n = (n + 1) / 2
+	} else if n > r.max {
+		n = r.max
+	}
+	n = copy(p[:n], r.data[r.pos:])
+	r.pos += n
+	return n, nil
+}
+
+// the same intact stream loaded through readers that return short reads: the records and the
+// end-of-file checksum must not depend on how the bytes are split across reads
+func VF_C01_ShortReads() {
+	mode := vfParam("mode", 0)
+	w := &vfW{}
+	w.header('9')
+	w.selectDB(uint32(vfByte("db")&0x3f), 0)
+	w.expireMS(vfUint64("exp"))
+	w.key(RdbTypeHash, vfBytes("key", 2), nil, func() {
+		w.length(2, 0)
+		w.str(vfBytes("f", 1), 0)
+		w.str(vfBytes("v", 3), 0)
+		w.str(vfBytes("f", 2), 0)
+		w.str(vfBytes("v", 1), 1)
+	})
+	w.key(RdbTypeString, vfBytes("k2", 1), nil, func() { w.strInt16(int16(vfUint16("i16"))) })
+	w.eof()
+	var src io.Reader
+	switch mode {
+	case 0:
+		src = &vfShort{data: w.buf, max: 1}
+	case 1:
+		src = &vfShort{data: w.buf, max: 0}
+	default:
+		src = &vfShort{data: w.buf, max: 3}
+	}
+	l := NewLoader(src)
+	vfAssert(l.Header() == nil, "header through short reads")
+	for _, r := range w.recs {
+		e, err := l.NextBinEntry()
+		vfCheckRecord(e, err, r)
+	}
+	e, err := l.NextBinEntry()
+	vfAssert(e == nil && err == nil, "extra record or error after the last key")
+	ferr := l.Footer()
+	vfAssert(ferr == nil, "end-of-file checksum of an intact stream depends on how the bytes are split across reads")
+	vfAssertTwin(ferr != nil, "twin")
 }
